@@ -27,7 +27,7 @@ ipc_send = Fn(F, ["impl<T> IpcSender<T> where T: Serialize,", "send"], ret="r", 
     ensures=[
         Clause("ipc.IpcSender.send/ensures.tables_restored_on_every_exit",
                "final(tls).ser_channels@ == old(tls).ser_channels@ && final(tls).ser_regions@ == old(tls).ser_regions@\n"
-               "&& final(tls).de_channels@ == old(tls).de_channels@ && final(tls).de_regions@ == old(tls).de_regions@", ["C14"]),
+               "&& final(tls).de_channels@ == old(tls).de_channels@ && final(tls).de_regions@ == old(tls).de_regions@", ["C14", "C04"]),
         Clause("ipc.IpcSender.send/ensures.sent_only_own_attachments",
                "old(tls).sent.is_prefix_of(final(tls).sent) && (r is Ok ==> final(tls).sent.len() > old(tls).sent.len())", ["C14", "C04"]),
     ],
